@@ -203,7 +203,7 @@ func init() {
 	core.Register(&core.Property{
 		ID:    "C20",
 		Level: "exploration",
-		Rule: "typed queries from the C01 generator (every operator, set functions, dotted and map-element symbols, null tests, count / isEmpty incl. sub-queries whose inner predicate is generated over the linked store, constant, or over names both stores know, half of them with an inner sort clause) plus 0-3 sort fields; the referenced symbol set R is known from the generator structure. " +
+		Rule: "typed queries from the C01 generator (every operator, set functions, dotted and map-element symbols, null tests, count / isEmpty incl. sub-queries whose inner predicate is generated over the linked store, constant, or over names both stores know, half of them with an inner sort clause) plus 0-3 sort fields (6-9 on a quarter of the queries: fields beyond the five a scan honours are references all the same); the referenced symbol set R is known from the generator structure. " +
 			"For each query: a store with every symbol public must accept; for every r in R that can be non-public a fresh store where exactly r is non-public (registered through AddSetSymbol / AddEntitySymbol / an un-published map / an un-published dotted symbol) must reject with an error naming r; " +
 			"random assignments must reject iff R meets the non-public set and name a referenced non-public symbol. Every third query is validated against a child store that was granted the parent's symbols and their visibility (GrantSymbols) instead of the store itself. Map elements follow their map. A reflection walk over the typed tree (not using Accept) lists the node kinds produced; the run is inconclusive unless every typed node kind occurred. " +
 			"non-trivial = distinct (query, assignment) pairs with at least two referenced symbols",
@@ -216,7 +216,7 @@ func init() {
 		},
 		Run: runC20,
 		Promises: func(core.Tier) map[string][]string {
-			return map[string][]string{"node_kind": c20NodeKinds, "position": {"sort-field", "set-function", "in-subject", "between-subject", "contains-subject", "null-test", "subquery-set", "map-element", "dotted", "nested-depth-3", "inside-subquery"}}
+			return map[string][]string{"node_kind": c20NodeKinds, "position": {"sort-field", "sort-field beyond the fifth", "set-function", "in-subject", "between-subject", "contains-subject", "null-test", "subquery-set", "map-element", "dotted", "nested-depth-3", "inside-subquery"}}
 		},
 		MinCounters: func(core.Tier) map[string]int64 {
 			return map[string]int64{"single_private_rejections": 1500, "all_public_accepts": 800, "inner_symbol_rejections": 25, "validated_through_child_store": 300}
@@ -243,7 +243,12 @@ func runC20(c *core.Ctx, idx int) {
 		depth := r.Intn(4)
 		e := shapeSubQueries(g.Expr(depth), r)
 		q := &qx.Query{Pred: e}
-		for i, n := 0, r.Intn(4); i < n; i++ {
+		nSort := r.Intn(4)
+		if k%4 == 1 {
+			nSort = 6 + r.Intn(4) // more fields than a scan honours: every one of them is still a reference
+			c.Cover("position", "sort-field beyond the fifth")
+		}
+		for i := 0; i < nSort; i++ {
 			q.Sort = append(q.Sort, qx.SortF{Sym: core.Pick(r, qx.SortSyms), Dir: core.Pick(r, []string{"", "asc", "desc"})})
 		}
 		text := q.Stream().Canon()
